@@ -218,7 +218,7 @@ def run_fragment(body: Sequence[ast.stmt], names: Dict[str, Any], attrs: Optiona
                         raise Unfoldable(str(exc))
                     env[c.func.value.id] = cur_
                 continue
-            if isinstance(st, ast.Pass):
+            if isinstance(st, (ast.Pass, ast.Import, ast.ImportFrom, ast.Global, ast.Nonlocal)):
                 continue
             if isinstance(st, ast.FunctionDef):
                 env[st.name] = st  # a local function: called (or handed on) by name
